@@ -29,6 +29,72 @@ fn tmpl__transfer_tcp<Ctx, Codec, NC: FnOnce(&ServerConfig<SslConfig>) -> anyhow
         forall|ctx: Ctx, addr: &Address| new_context.ensures((&config,), Ok(ctx)) ==> #[trigger] new_codec.requires((addr, ctx)),
 { unimplemented!() }
 
+// ---- client/template.rs try_transfer_tcp: which client-server transport a configuration's ssl / ws / quic sections select ----
+/// tokio_util::codec::{Encoder, Decoder}: only the bounds of try_transfer_tcp name them here
+pub trait Encoder<I> { type Error; }
+pub trait Decoder { type Item; type Error; }
+#[verifier::external_body]
+pub struct TcpStream { _s: u8 }
+pub struct BytesCodec;
+#[verifier::external_body]
+#[verifier::accept_recursive_types(S)]
+#[verifier::accept_recursive_types(C)]
+pub struct Framed<S, C> { _s: core::marker::PhantomData<(S, C)> }
+impl<S, C> Framed<S, C> {
+    #[verifier::external_body]
+    fn new(s: S, c: C) -> (r: Self) { unimplemented!() }
+}
+#[verifier::external_body]
+pub struct relay__Result { _r: u8 }
+#[verifier::external_body]
+pub struct OutStream { _r: u8 }
+pub enum Transport { Plain, Tls, Ws, Wss, Quic }
+/// one outbound connection attempt of the client: which transport, to which host and port, with which ssl / ws section
+pub struct Dial { pub kind: Transport, pub host: Seq<char>, pub port: u16, pub ssl: Option<SslConfig>, pub ws: Option<WebSocketConfig> }
+pub struct TransportLog { pub dials: Seq<Dial>, pub relays: Seq<nat> }
+/// README "Transport": quic section -> QUIC; otherwise ssl+ws -> WebSocket over TLS, ssl -> TLS, ws -> WebSocket, neither -> plain TCP
+pub closed spec fn transport_of(c: &ServerConfig<SslConfig>) -> Transport {
+    if c.quic is Some { Transport::Quic }
+    else if c.ssl is Some { if c.ws is Some { Transport::Wss } else { Transport::Tls } }
+    else if c.ws is Some { Transport::Ws } else { Transport::Plain }
+}
+pub closed spec fn dial_of(c: &ServerConfig<SslConfig>) -> Dial {
+    Dial { kind: transport_of(c), host: c.host@, port: c.port,
+        ssl: if c.quic is Some { c.quic } else { c.ssl },
+        ws: if c.quic is Some { None } else { c.ws } }
+}
+/// client/template.rs new_*_outbound (connect, TLS / WebSocket / QUIC handshake): NOT verified; each records the attempt, successful or not
+#[verifier::external_body]
+fn new_plain_outbound<C>(host: &str, port: u16, codec: C, Tracked(vlog): Tracked<&mut TransportLog>) -> (r: Result<Framed<OutStream, C>>)
+    ensures final(vlog).relays == old(vlog).relays,
+        final(vlog).dials == old(vlog).dials.push(Dial { kind: Transport::Plain, host: host@, port, ssl: None, ws: None })
+{ unimplemented!() }
+#[verifier::external_body]
+fn new_quic_outbound<C>(host: &str, port: u16, codec: C, config: &SslConfig, Tracked(vlog): Tracked<&mut TransportLog>) -> (r: Result<Framed<OutStream, C>>)
+    ensures final(vlog).relays == old(vlog).relays,
+        final(vlog).dials == old(vlog).dials.push(Dial { kind: Transport::Quic, host: host@, port, ssl: Some(*config), ws: None })
+{ unimplemented!() }
+#[verifier::external_body]
+fn new_tls_outbound<C>(host: &str, port: u16, codec: C, ssl_config: &SslConfig, Tracked(vlog): Tracked<&mut TransportLog>) -> (r: Result<Framed<OutStream, C>>)
+    ensures final(vlog).relays == old(vlog).relays,
+        final(vlog).dials == old(vlog).dials.push(Dial { kind: Transport::Tls, host: host@, port, ssl: Some(*ssl_config), ws: None })
+{ unimplemented!() }
+#[verifier::external_body]
+fn new_ws_outbound<C>(host: &str, port: u16, codec: C, ws_config: &WebSocketConfig, Tracked(vlog): Tracked<&mut TransportLog>) -> (r: Result<Framed<OutStream, C>>)
+    ensures final(vlog).relays == old(vlog).relays,
+        final(vlog).dials == old(vlog).dials.push(Dial { kind: Transport::Ws, host: host@, port, ssl: None, ws: Some(*ws_config) })
+{ unimplemented!() }
+#[verifier::external_body]
+fn new_wss_outbound<C>(host: &str, port: u16, codec: C, ssl_config: &SslConfig, ws_config: &WebSocketConfig, Tracked(vlog): Tracked<&mut TransportLog>) -> (r: Result<Framed<OutStream, C>>)
+    ensures final(vlog).relays == old(vlog).relays,
+        final(vlog).dials == old(vlog).dials.push(Dial { kind: Transport::Wss, host: host@, port, ssl: Some(*ssl_config), ws: Some(*ws_config) })
+{ unimplemented!() }
+/// client/template.rs relay_tcp (split / forward / try_join): NOT verified; records over which dial (by ordinal) the relay ran
+#[verifier::external_body]
+fn relay_tcp<I, O>(local_client: I, client_server: O, Tracked(vlog): Tracked<&mut TransportLog>) -> (r: relay__Result)
+    ensures final(vlog).dials == old(vlog).dials,
+        final(vlog).relays == old(vlog).relays.push(old(vlog).dials.len())
+{ unimplemented!() }
 //@@ octo-squirrel-client/src/client/shadowsocks.rs:40-42  mod tcp / fn new_payload_codec  sha=1f38991046ebd3b8
 fn sscli__new_payload_codec<const N: usize>(addr: &Address, config: ClientContext<N>) -> (r: Result<sscli__PayloadCodec<N>>)
     requires config.0.wf(),
@@ -98,4 +164,52 @@ fn transfer_tcp(listener: TcpListener, current: ServerConfig<SslConfig>) {
         VMess => tmpl__transfer_tcp(listener, current, |c| Ok((c.cipher, c.password.clone())), vmesstcp__new_codec),
         Trojan => tmpl__transfer_tcp(listener, current, |c| Ok(c.password.clone()), trojantcp__new_codec),
     }
+}
+
+//@@ octo-squirrel-client/src/client/template.rs:99-134  fn try_transfer_tcp  sha=b59c4e834d63662b
+fn try_transfer_tcp<Context, NewCodec, Codec>(
+    inbound: TcpStream,
+    peer_addr: &Address,
+    config: &ServerConfig<SslConfig>,
+    context: Context,
+    new_codec: NewCodec,Tracked(vlog): Tracked<&mut TransportLog>
+) -> (r: Result<relay__Result>)
+where
+    NewCodec: FnOnce(&Address, Context) -> Result<Codec>,
+    Codec: Encoder<BytesMut, Error = anyhow::Error> + Decoder<Item = BytesMut, Error = anyhow::Error> + Send + 'static + Unpin,
+    requires
+        new_codec.requires((peer_addr, context)),
+    ensures
+        //#C16 C01
+        // exactly one outbound attempt at most, over the transport the configuration's sections name, to the configured server
+        final(vlog).dials == old(vlog).dials || final(vlog).dials == old(vlog).dials.push(dial_of(config)),
+        // a relay ran only over that attempt, and Ok means it ran
+        r is Ok ==> final(vlog).dials == old(vlog).dials.push(dial_of(config))
+            && final(vlog).relays == old(vlog).relays.push(final(vlog).dials.len()),
+        r is Err ==> final(vlog).relays == old(vlog).relays,
+{
+    let local_client = Framed::new(inbound, BytesCodec);
+    let codec = new_codec(peer_addr, context)?;
+    Ok(match (&config.ssl, &config.ws, &config.quic) {
+        (None, None, None) => {
+            let client_server = new_plain_outbound(&config.host, config.port, codec, Tracked(vlog))?;
+            relay_tcp(local_client, client_server, Tracked(vlog))
+        }
+        (_, _, Some(quic_config)) => {
+            let client_server = new_quic_outbound(&config.host, config.port, codec, quic_config, Tracked(vlog))?;
+            relay_tcp(local_client, client_server, Tracked(vlog))
+        }
+        (None, Some(ws_config), None) => {
+            let client_server = new_ws_outbound(&config.host, config.port, codec, ws_config, Tracked(vlog))?;
+            relay_tcp(local_client, client_server, Tracked(vlog))
+        }
+        (Some(ssl_config), None, None) => {
+            let client_server = new_tls_outbound(&config.host, config.port, codec, ssl_config, Tracked(vlog))?;
+            relay_tcp(local_client, client_server, Tracked(vlog))
+        }
+        (Some(ssl_config), Some(ws_config), None) => {
+            let client_server = new_wss_outbound(&config.host, config.port, codec, ssl_config, ws_config, Tracked(vlog))?;
+            relay_tcp(local_client, client_server, Tracked(vlog))
+        }
+    })
 }
